@@ -80,8 +80,9 @@ def run_script(ops_or_len, rng, profile, drv, res, pid, record=None, check_every
     n = ops_or_len if gen else len(ops_or_len)
     script = []
     cur = dump_impl(world)
+    last = None
     for k in range(n):
-        op = irgen.gen_op(rng, cur, profile, compound=True) if gen else ops_or_len[k]
+        op = (irgen.followup(rng, cur, last) or irgen.gen_op(rng, cur, profile, compound=True)) if gen else ops_or_len[k]
         script.append(op)
         observe(world)
         tok = prepare(world, op)
@@ -90,6 +91,7 @@ def run_script(ops_or_len, rng, profile, drv, res, pid, record=None, check_every
         oprng = random.Random(stable_hash(op))
         out = execute(world, op, oprng, tok)
         world.note_outer_pins()
+        last = (op, out)
         mres = model_apply(drv, op)
         if "error" in mres:
             raise RuntimeError("driver rejected op %r: %s" % (op, mres["error"]))
